@@ -42,7 +42,12 @@ MESHES = [
     ("ico", {}),
     ("two", {}),
 ]
-FILES = [{"kind": "file", "path": "ugrid/quad-hexagon/grid.nc"}, {"kind": "file", "path": "mpas/QU/mesh.QU.1920km.151026.nc"}]
+FILES = [
+    {"kind": "file", "path": "ugrid/quad-hexagon/grid.nc"},
+    {"kind": "file", "path": "mpas/QU/mesh.QU.1920km.151026.nc"},
+    {"kind": "file", "path": "mpas/QU/mesh.QU.1920km.151026.nc", "use_dual": True},
+    {"kind": "file", "path": "mpas/QU/mesh.QU.1920km.151026.nc", "twice": True},
+]
 KINDS = ["nodes", "face centers", "edge centers"]
 TREE_PARAMS = [
     ("ball", "spherical", "haversine"),
@@ -122,6 +127,9 @@ class Trees(Profile):
                 ops.append(dict(self.gen_tree(rng), op="tree_fail", g="g0", bad=rng.choice(["face center", "node", "edges", ""])))
             elif r < 0.11 and not last:
                 ops.append({"op": "chunk", "g": "g0", "n": rng.choice([-1, 3, 5])})
+            elif r < 0.15 and not last:
+                # a coordinate selection that reads the grid's longitudes (spanning the antimeridian)
+                ops.append({"op": "bbox_am", "g": "g0", "element": rng.choice(KINDS)})
             elif r < 0.4 and not last:
                 ops.append(dict(self.gen_tree(rng), op="tree", g="g0"))
             elif r < 0.5 and not last and "g1" in sources:
@@ -202,6 +210,15 @@ class Trees(Profile):
                 out = ("exc", type(e).__name__)
                 W.fire("failed_op")
                 W.cov["failed_ops"] += 1
+            W.switched = True
+            return out, []
+        if name == "bbox_am":
+            try:
+                sub = g.subset.bounding_box((150.0, -150.0), (-85.0, 88.0), element=op["element"])
+                out = ("sub", int(sub.n_face))
+            except Exception as e:
+                out = ("exc", type(e).__name__)
+            W.fire("subset_reads_longitudes")
             W.switched = True
             return out, []
         if name == "chunk":
